@@ -10,6 +10,14 @@ C03.cap     wire/slice validators cap names at 255 and labels at 63:
 C03.forge   unchecked-constructor audit: every call of an `unsafe fn` that
             returns a validated name type is validator-dominated, a re-wrap of
             an already validated value, inside another unsafe fn, or audited.
+C03.endl    NameBuilder methods that end the label under construction call
+            end_label while `head` still names it (never after taking/clearing
+            `self.head`): otherwise the label's length octet stays 0.
+C03.flag    ParsedName's `compressed` flag is false only for names stored
+            contiguously: every path from a followed compression pointer to the
+            next seek sets it; it is cleared only while no label was counted.
+C03.bounds  Name::slice / range hand out a RelativeName only for ranges that
+            end before the root label (open-ended ranges are refused).
 C03.esc     Label's Display prints raw only octets the presentation-format
             reader accepts unescaped (finite decision tree over one octet).
 """
@@ -42,6 +50,11 @@ def run(ctx):
     rule_cap(ctx, F)
     rule_forge(ctx, F)
     rule_esc(ctx, F)
+    rule_endl(ctx, F)
+    rule_flag(ctx, F)
+    rule_bounds(ctx, F)
+    import c06
+    c06.rule_label(ctx, F)   # strings given to the zone-file scanner: labels of 1..=63 octets
 
 
 # ---------------------------------------------------------------------------
@@ -358,6 +371,30 @@ def _caps(b, F):
     return out
 
 
+def skip_max_total(b, F):
+    """Longest uncompressed name ParsedName::skip accepts: the cap on the exit
+    (root label) arm bounds the total; the cap on the looping (label) arm
+    bounds the length before the root label."""
+    caps = _caps(b, F)
+    if not caps:
+        return None
+    cyc = cyclic_blocks(b)
+    total = None
+    for bi, (loc, mx) in caps.items():
+        ef = BranchFacts(b, F).edge_facts(bi)
+        loops = False
+        errs = {r[0] for r in return_assignments(b) if r[2] == "Err"}
+        for s, lab in b.succs(bi):
+            r = b.reach_from(s)
+            if errs & r and not ({x[0] for x in return_assignments(b) if x[2] != "Err"} & r) and bi not in r:
+                continue  # error edge
+            if bi in r:
+                loops = True
+        bound = mx + 1 if loops else mx
+        total = bound if total is None else min(total, bound)
+    return total
+
+
 def rule_cap(ctx, F):
     R = "C03.cap"
     ctx.floor(R, 6)
@@ -369,17 +406,18 @@ def rule_cap(ctx, F):
         ctx.ob(R, b, "two length caps", len(caps) == 2,
                "expected one name-length cap per phase (before / after the first pointer), found %d" % len(caps))
         for bi, (loc, mx) in sorted(caps.items()):
-            ctx.ob(R, b, "accumulated length before the root label <= 254 #%d" % (sorted(caps).index(bi) + 1), mx <= 254,
+            ctx.ob(R, b, "accumulated length before the root label <= 254 #%d" % (sorted(caps).index(bi) + 1), mx == 254,
                    "parse_ref continues with an accumulated length of up to %d octets; with the root label the "
-                   "name would have %d > 255 octets" % (mx, mx + 1), b.where(bi))
+                   "longest accepted name has %d octets (must be exactly 255)" % (mx, mx + 1), b.where(bi))
         ctx.ob(R, b, "both phases use the same cap", len(set(vals)) <= 1,
                "the two phases of parse_ref cap the name length differently: %s" % vals)
     # skip: total (including root) <= 255
     b = F.one_body(r"^base::name::parsed::ParsedName::<\(\)>::skip$")
     if ctx.anchor(R, "ParsedName::skip", b):
-        caps = _caps(b, F)
-        ctx.ob(R, b, "skip caps at 255", bool(caps) and all(mx <= 255 for _, mx in caps.values()),
-               "ParsedName::skip accepts names of up to %s octets" % [mx for _, mx in caps.values()])
+        total = skip_max_total(b, F)
+        ctx.ob(R, b, "skip caps at 255", total == 255,
+               "ParsedName::skip accepts uncompressed names of up to %s octets; ParsedName::parse accepts exactly 255, "
+               "so a message is read differently when a record is skipped and when it is parsed" % total)
     # validators on slices: constants must be the protocol limits
     for rx, nm, want in (
         (r"^base::name::absolute::Name::<\[u8\]>::check_slice$", "Name::check_slice", {255}),
@@ -888,3 +926,163 @@ def _reader_plain_set(r, F):
         if kinds and kinds[-1] == "Ok":
             ok |= octs
     return ok
+
+
+# ---------------------------------------------------------------------------
+# ParsedName.compressed provenance
+# ---------------------------------------------------------------------------
+
+def rule_flag(ctx, F):
+    """as_flat_slice()/to_cow()/flatten/compose take the octets from `pos` for
+    `name_len` octets verbatim when `compressed` is false.  parse_ref may
+    therefore report `compressed: false` only if no pointer was followed
+    after the first counted label."""
+    R = "C03.flag"
+    ctx.floor(R, 3)
+    b = F.body("base::name::parsed::ParsedName::<&'a Octs>::parse_ref")
+    if not ctx.anchor(R, "ParsedName::parse_ref", b):
+        return
+    aggs = []
+    for bi in sorted(b.reachable_blocks()):
+        for st in b.blocks[bi]["s"]:
+            if st[0] == "=" and st[2][0] == "agg" and st[2][1][0] == "adt" and st[2][1][1] == "base::name::parsed::ParsedName":
+                fields = st[2][1][3]
+                if "compressed" in fields:
+                    aggs.append((bi, st[2][2][fields.index("compressed")]))
+    if not ctx.anchor(R, "ParsedName constructions in parse_ref", len(aggs) >= 2, b.where()):
+        return
+    seeks = [bb for bb, t in b.calls_matching(r"Parser::<.*>::seek$")]
+    ctx.anchor(R, "pointer follow (Parser::seek) in parse_ref", len(seeks) >= 1, b.where())
+    # edges on which a compression pointer was read
+    ptr_edges = []
+    bf = BranchFacts(b, F)
+    for sw in sorted(b.reachable_blocks()):
+        if b.blocks[sw]["t"]["k"] != "switch":
+            continue
+        for lab, (tt, vv) in bf.edge_facts(sw).items():
+            if isinstance(vv, tuple) and vv == ("variant", "Compressed"):
+                ptr_edges.append((sw, lab, b.edge_target(sw, lab)))
+    ctx.anchor(R, "LabelType::Compressed arms in parse_ref", len(ptr_edges) >= 2, b.where())
+    for bi, op in aggs:
+        if op[0] == "k":
+            val = op[2]
+            if val in (0, False):
+                # constant false: no pointer can have been followed on the way here
+                after = any(bi in b.reach_from(s) for s in seeks)
+                ctx.ob(R, b, "compressed: false literal only before any pointer is followed", not after,
+                       "parse_ref builds a ParsedName with compressed: false on a path that already followed a "
+                       "compression pointer", b.where(bi))
+            continue
+        loc = op[1][0]
+        for _ in range(4):   # follow the copy made for the struct expression back to the variable
+            ds = b.defs().get(loc, [])
+            if len(ds) == 1 and ds[0][0] == "stmt" and ds[0][3][0] == "use" and ds[0][3][1][0] in ("c", "m") and len(ds[0][3][1][1]) == 1:
+                loc = ds[0][3][1][1][0]
+            else:
+                break
+        sets_true = set()
+        sets_false = []
+        for bj in sorted(b.reachable_blocks()):
+            for st in b.blocks[bj]["s"]:
+                if st[0] == "=" and st[1] == [loc] and st[2][0] == "use" and st[2][1][0] == "k":
+                    if st[2][1][2] in (1, True):
+                        sets_true.add(bj)
+                    else:
+                        sets_false.append(bj)
+        ctx.anchor(R, "assignments to the compressed flag", bool(sets_true), b.where(bi))
+        for (sw, lab, tgt) in ptr_edges:
+            reach = {tgt} if tgt in sets_true else b.reach_from(tgt, removed_blocks=sets_true)
+            bad = [s for s in seeks if s in reach and tgt not in sets_true]
+            ctx.ob(R, b, "pointer read in bb-arm#%d sets compressed before the next seek" % (ptr_edges.index((sw, lab, tgt)) + 1), not bad,
+                   "a compression pointer is followed (Parser::seek) on a path from a LabelType::Compressed arm that "
+                   "does not set `compressed = true`: the name is reported as stored contiguously and "
+                   "as_flat_slice()/compose() hand out raw message octets including the pointer", b.where(tgt))
+        for bj in sets_false:
+            zero = any(tt[0] == "bin" and tt[1] == "Eq" and vv is True and const_value(tt[3]) == 0 for tt, vv in bool_facts(b, bj, F))
+            ctx.ob(R, b, "compressed cleared only while no label has been counted", zero,
+                   "parse_ref clears `compressed` without a dominating name_len == 0", b.where(bj))
+
+
+# ---------------------------------------------------------------------------
+# Name::slice / range bounds
+# ---------------------------------------------------------------------------
+
+def rule_bounds(ctx, F):
+    R = "C03.bounds"
+    ctx.floor(R, 3)
+    b = F.one_body(r"^base::name::absolute::Name::<Octs>::check_bounds$")
+    if not ctx.anchor(R, "Name::check_bounds", b):
+        return
+    bf = BranchFacts(b, F)
+    rets = set(b.return_blocks())
+    found = 0
+    for sw in sorted(b.reachable_blocks()):
+        if b.blocks[sw]["t"]["k"] != "switch":
+            continue
+        subj = b.term_of_operand(b.blocks[sw]["t"]["d"])
+        names = [s[1] for s in walk(subj) if s[0] == "call" and s[1]]
+        if not any(n.endswith("RangeBounds::end_bound") for n in names):
+            continue
+        for lab, (tt, vv) in bf.edge_facts(sw).items():
+            if not (isinstance(vv, tuple) and vv[0] == "variant"):
+                continue
+            tgt = b.edge_target(sw, lab)
+            reach = b.reach_from(tgt)
+            if vv[1] == "Unbounded":
+                found += 1
+                ctx.ob(R, b, "open-ended range is refused", not (rets & reach),
+                       "Name::check_bounds returns normally for a range without an end: Name::slice(n..)/range(n..) "
+                       "then wrap octets that include the root label in a RelativeName", b.where(tgt))
+            elif vv[1] in ("Included", "Excluded"):
+                found += 1
+                chk = [bb for bb, t in b.calls_matching(r"Name::<Octs>::check_index$") if bb in reach]
+                ok = bool(chk) and not (rets & b.reach_from(tgt, removed_blocks=chk))
+                ctx.ob(R, b, "%s end is checked to be a label start" % vv[1].lower(), ok,
+                       "Name::check_bounds accepts an %s end bound without check_index" % vv[1].lower(), b.where(tgt))
+    ctx.anchor(R, "end-bound match in Name::check_bounds", found >= 3, b.where())
+    # slice/range call it before wrapping
+    for fn in ("slice", "range"):
+        sb = F.one_body(r"^base::name::absolute::Name::<Octs>::%s$" % fn)
+        if ctx.anchor(R, "Name::%s" % fn, sb):
+            cb = [bb for bb, t in sb.calls_matching(r"Name::<Octs>::check_bounds$")]
+            mk = [bb for bb, t in sb.calls_matching(r"RelativeName::<.*>::from_(slice|octets)_unchecked$")]
+            ok = bool(cb) and bool(mk) and all(sb.dominates(cb[0], m) for m in mk)
+            ctx.ob(R, sb, "bounds checked before the unchecked constructor", ok,
+                   "Name::%s builds a RelativeName without a dominating check_bounds" % fn)
+
+
+# ---------------------------------------------------------------------------
+# end_label is called while the label start is still known
+# ---------------------------------------------------------------------------
+
+def rule_endl(ctx, F):
+    R = "C03.endl"
+    ctx.floor(R, 5)
+    n = 0
+    for p, b in sorted(F.bodies.items()):
+        if not p.startswith(NB) or b.kind != "AssocFn":
+            continue
+        ends = [bb for bb, t in b.calls_matching(r"NameBuilder::<Builder>::end_label$")]
+        if not ends or p.endswith("::end_label"):
+            continue
+        clears = []
+        for bi in sorted(b.reachable_blocks()):
+            t = b.blocks[bi]["t"]
+            if t["k"] == "call" and re.search(r"Option::<.*>::take$|mem::take$|mem::replace$", t["fn"] or "") and t["args"]:
+                a = deep_strip(b.term_of_operand(t["args"][0]))
+                if a[0] == "field" and a[2] == "head" and deep_strip(a[1]) == ("arg", 1):
+                    clears.append((bi, "take"))
+            for st in b.blocks[bi]["s"]:
+                if st[0] == "=" and len(st[1]) >= 2 and isinstance(st[1][-1], list) and st[1][-1][0] == "." and st[1][-1][2] == "head" \
+                        and st[1][0] == 1:
+                    rv = deep_strip(b.term_of_rvalue(st[2]))
+                    if rv[0] == "agg" and rv[1][:3] == ("adt", "core::option::Option", "None"):
+                        clears.append((bi, "= None"))
+        for e in ends:
+            n += 1
+            bad = [(bi, how) for bi, how in clears if e in b.reach_from(bi) and e != bi]
+            ctx.ob(R, b, "end_label#%d sees the label start" % (ends.index(e) + 1), not bad,
+                   "%s clears self.head (%s) before calling end_label(): end_label finds no label to end and the "
+                   "length octet of the label under construction stays 0 — the finished name contains a root label "
+                   "in the middle" % (p.split("::")[-1], ", ".join(h for _, h in bad)), b.where(e))
+    ctx.call_sites += n
